@@ -41,6 +41,40 @@ def grammar : List (String × Bool × List (List (String × String))) := [
      [("nt", "series_terminal")]]),
   ("start", true, [[("nt", "parallel_terminal")]])]
 
+/-! ### what the data means: the token strings a nonterminal derives -/
+
+abbrev GSym := String × String
+abbrev GRules := List (String × Bool × List (List GSym))
+
+/-- the token a string literal of the grammar stands for -/
+def litTok (s : String) : Option Tok :=
+  if s = "items" then some .items
+  else if s = "+" then some .plus
+  else if s = "*" then some .star
+  else if s = "." then some (.conn .notify)
+  else if s = ":" then some (.conn .quiet)
+  else if s = "," then some .comma
+  else if s = "[" then some .lb
+  else if s = "]" then some .rb
+  else none
+
+/-- `G g (.inl A) ts`: the rule `A` derives the token string `ts`;
+`G g (.inr α) ts`: the sequence of symbols `α` derives `ts`.
+The terminal NAME derives any NAME token. -/
+inductive G (g : GRules) : String ⊕ List GSym → List Tok → Prop
+  | rule {A : String} {inl : Bool} {alts : List (List GSym)} {alt : List GSym} {ts : List Tok} :
+      (A, inl, alts) ∈ g → alt ∈ alts → G g (.inr alt) ts → G g (.inl A) ts
+  | nil : G g (.inr []) []
+  | nt {A : String} {rest : List GSym} {t1 t2 : List Tok} :
+      G g (.inl A) t1 → G g (.inr rest) t2 → G g (.inr (("nt", A) :: rest)) (t1 ++ t2)
+  | name {n : Name} {rest : List GSym} {t2 : List Tok} :
+      G g (.inr rest) t2 → G g (.inr (("term", "NAME") :: rest)) (.name n :: t2)
+  | lit {s : String} {t : Tok} {rest : List GSym} {t2 : List Tok} :
+      litTok s = some t → G g (.inr rest) t2 → G g (.inr (("lit", s) :: rest)) (t :: t2)
+
+/-- the token language of the grammar file -/
+def Gen (g : GRules) (A : String) (ts : List Tok) : Prop := G g (.inl A) ts
+
 def grammarTerminals : List (String × String) := [("NAME", "[a-zA-Z_]\\w*")]
 def grammarImports : List String := ["common.WS"]
 def grammarIgnore : List String := ["WS"]
